@@ -257,6 +257,96 @@ theorem pmf_answers_recorded_as_parsed (c : Config) (P : PmfLearner σ V) (dflt 
             (P.predict vst.2.1.1 vst.1.ctx vst.1.acts).2.2] :=
   pmf_parsed' c P dflt first rest s s' calls rows H hl h
 
+/-- batched `order_strict`: the trace is, batch by batch in environment order, (the predicts of the batch's rows in
+order) ++ (their scores) ++ (their learns, each carrying its row's context) -/
+theorem order_strict_batched (c : Config) (L : Learner σ V) (n : Nat) (first : Dict (Fld V R))
+    (rest : List (Dict (Fld V R))) (s s' : σ) (calls : List (Call V)) (rows : List (Row V R)) (H : Hyp c L first rest)
+    (h : evaluate c L (some n) (first :: rest) s = .ok (s', calls, rows)) :
+    ∃ groups : List (List (Call V)), groups.length = (chunks n (first :: rest)).length ∧ calls = groups.flatten ∧
+      ∀ cg ∈ ((chunks n (first :: rest)).map (List.map view)).zip groups,
+        ∃ learns : List (Call V), (∀ x ∈ learns, Call.isLearn x = true) ∧ learns.length ≤ cg.1.length ∧
+          cg.2 = (if needPred c L.hasScore then cg.1.map (fun v => Call.predict v.ctx v.acts) else [])
+            ++ (if (c.eval == .ips && L.hasScore && !needPred c L.hasScore) then cg.1.map (fun v => Call.score v.ctx v.acts v.offAct) else [])
+            ++ learns ∧
+          ∀ vl ∈ cg.1.zip learns, Call.ctx vl.2 = vl.1.ctx :=
+  order_strict_batched' c L n first rest s s' calls rows H h
+
+/-- batched `kwargs_roundtrip`: with on-policy learning every batch is one predict per row then one learn per row; the
+j-th learn carries row j's context and exactly what the learner answered for row j (`predictS`: answered after the
+earlier rows of the same batch were predicted, before any of the batch was learned) with the documented reward -/
+theorem kwargs_roundtrip_batched (c : Config) (L : Learner σ V) (n : Nat) (first : Dict (Fld V R))
+    (rest : List (Dict (Fld V R))) (s s' : σ) (calls : List (Call V)) (rows : List (Row V R)) (H : Hyp c L first rest)
+    (hl : c.learn = .on ∨ c.learn = .ips)
+    (h : evaluate c L (some n) (first :: rest) s = .ok (s', calls, rows)) :
+    ∃ steps : List (σ × List (Call V)), steps.length = (chunks n (first :: rest)).length ∧ calls = (steps.map (·.2)).flatten ∧
+      ∀ cst ∈ ((chunks n (first :: rest)).map (List.map view)).zip steps,
+        ∃ args : List (Option V × Option Rat × Option Rat × Dict V),
+          cst.2.2 = cst.1.map (fun v => Call.predict v.ctx v.acts)
+            ++ List.zipWith (fun (v : View V R) a => Call.learn v.ctx a.1 a.2.1 a.2.2.1 a.2.2.2) cst.1 args ∧
+          args.length = cst.1.length ∧
+          ∀ vpa ∈ (cst.1.zip (predictS L cst.2.1 cst.1).2).zip args,
+            ∃ rew, (if c.learn = .on then envReward vpa.1.1 vpa.1.2.action else ipsReward vpa.1.1 (some vpa.1.2.action)) = some rew ∧
+              vpa.2 = (some vpa.1.2.action, some rew, vpa.1.2.prob, vpa.1.2.kw) :=
+  kwargs_roundtrip_batched' c L n first rest s s' calls rows H hl h
+
+/-- batched `extra_fields_carried` (and one row per interaction): exactly as un-batched -/
+theorem extra_fields_carried_batched (c : Config) (L : Learner σ V) (n : Nat) (hn : 0 < n) (first : Dict (Fld V R))
+    (rest : List (Dict (Fld V R))) (s s' : σ) (calls : List (Call V)) (rows : List (Row V R)) (H : Hyp c L first rest)
+    (h : evaluate c L (some n) (first :: rest) s = .ok (s', calls, rows)) :
+    ∃ full : List (Row V R), full.length = (first :: rest).length ∧ rows = full.filter (fun o => !o.isEmpty) ∧
+      ∀ vr ∈ ((first :: rest).map view).zip full,
+        ∃ pre : Row V R, vr.2 = pre ++ vr.1.extras.map (fun kv => (kv.1, Cell.fld kv.2)) ∧ ∀ b ∈ pre, b.1 ∈ implicitExclude :=
+  extra_fields_carried_batched' c L n hn first rest s s' calls rows H h
+
+/-- the batched-vs-un-batched TRACE relation, exactly: for a learner whose answers do not depend on its history
+(`Oblivious`), on an environment satisfying `Hyp`, for every batch size, both traces have closed forms over the same
+per-interaction call pieces (`predC`, `scoreC`, `learnCallsO`: the predict / score / learn call of one interaction) —
+un-batched: interaction by interaction (predict? score? learn?); batched: batch by batch (all predicts)(all
+scores)(all learns).  Without `Oblivious` the learn arguments differ (see `batched_row_predicted_before_learning`). -/
+theorem batched_trace_regrouped {L : Learner σ V} {f : Option V → Option (List V) → Pred V}
+    {g : Option V → Option (List V) → Option V → Rat} (ho : Oblivious L f g) (c : Config) (n : Nat)
+    (first : Dict (Fld V R)) (rest : List (Dict (Fld V R))) (s sb su : σ) (cb cu : List (Call V)) (rb ru : List (Row V R))
+    (H : Hyp c L first rest)
+    (hb : evaluate c L (some n) (first :: rest) s = .ok (sb, cb, rb))
+    (hu : evaluate c L none (first :: rest) s = .ok (su, cu, ru)) :
+    cu = ((first :: rest).map view).flatMap
+        (fun v => predC c L.hasScore v ++ scoreC c L.hasScore v ++ learnCallsO c L.hasScore f v) ∧
+    cb = ((chunks n (first :: rest)).map (List.map view)).flatMap
+        (fun ch => ch.flatMap (predC c L.hasScore) ++ ch.flatMap (scoreC c L.hasScore) ++ ch.flatMap (learnCallsO c L.hasScore f)) :=
+  batched_trace_regrouped' ho c n first rest s sb su cb cu rb ru H hb hu
+
+/-- `learning_info` in a batched evaluation (no hypotheses): batch by batch, the pass without the info is the batched pass
+of `evaluate` (same state, same calls, same rows-before-merging), and every row of the batch receives ALL the info
+written during that batch's pass (`batchInfo`: the predicts of all rows in order, then the learns; later writes update
+earlier ones), each value replaced by `value[i]` for the row's position i in the batch when that works
+(`indexInfo`/`Subscript.idx` — `Unbatch` indexes every cell), merged over the row's own cells -/
+theorem info_batched_rows [Subscript V] (c : Config) (L : InfoLearner σ V) (n : Nat) (first : Dict (Fld V R))
+    (rest : List (Dict (Fld V R))) (s s' : σ) (calls : List (Call V)) (rows : List (Row V R))
+    (h : evaluateIB c L n (first :: rest) s = .ok (s', calls, rows)) :
+    ∃ steps : List (σ × σ × List (Call V) × List (Row V R) × Dict V), steps.length = (chunks n (first :: rest)).length ∧
+      calls = (steps.map (·.2.2.1)).flatten ∧
+      rows = (steps.map (fun st => (mergeIndexed st.2.2.2.2 0 st.2.2.2.1).filter (fun o => !o.isEmpty))).flatten ∧
+      ∀ cst ∈ (chunks n (first :: rest)).zip steps,
+        stepChunkIB c (mkFlags first) L cst.2.1 cst.1 = .ok cst.2.2 ∧
+        stepChunk c (mkFlags first) L.toLearner true cst.2.1 cst.1
+          = .ok (cst.2.2.1, cst.2.2.2.1, cst.2.2.2.2.1.filter (fun o => !o.isEmpty)) :=
+  info_batched_rows' c L n first rest s s' calls rows h
+
+/-- environments whose interactions do not all have the first one's keys (1): `has_context`, `has_actions`, `has_action`,
+`has_reward`, `has_prob` are decided by the FIRST interaction; a reserved key the first interaction lacks is read as
+`None` in every later interaction, whatever that interaction holds (and, being a reserved name, is not carried into the
+row either) -/
+theorem later_reserved_key_ignored {c : Config} {fl : Flags} {d : Dict (Fld V R)} {r : RowIn V R} (h : readRow c fl d = .ok r) :
+    (fl.hasContext = false → r.ctx = none) ∧ (fl.hasActions = false → r.acts = none) ∧
+    (fl.hasAction = false → r.offAct = none) ∧ (fl.hasReward = false → r.offRwd = none) ∧ (fl.hasProb = false → r.offPr = none) :=
+  readRow_ignores h
+
+/-- (2): a reserved key the first interaction has and a later one lacks stops the evaluation at that interaction
+(`KeyError` in the code; rows yielded before it are already out) — shown for 'context', the first key read -/
+theorem later_missing_key_stops {c : Config} {fl : Flags} {d : Dict (Fld V R)} (hf : fl.hasContext = true)
+    (hd : d.get? "context" = none) : readRow c fl d = .error (.keyError "context") :=
+  readRow_missing_context hf hd
+
 /-- validation (all environments, batched or not, no hypotheses): `evaluate` rejects up-front — before the
 learner is touched — iff a key the code requires (`required` = `_required`) is missing from the first interaction -/
 theorem validate_iff_missing (c : Config) (L : Learner σ V) (bs : Option Nat) (env : List (Dict (Fld V R))) (s : σ) :
@@ -330,5 +420,22 @@ example : evaluate exCfg cexL none exEnv 0 =
           [("action", .val (some 1)), ("reward", .num (some 0)), ("L", .fld .none)]]) := by
   set_option synthInstance.maxSize 4000 in
   decide +kernel
+
+/-! (3): the homogeneity hypothesis of `off_policy_logged` (inside `Hyp`) is necessary -/
+def hetCfg : Config := { learn := .off, eval := .none, record := [] }
+def hetEnv : List (Dict (Fld Nat Unit)) :=
+  [[("context", .val 1), ("action", .val 2), ("reward", .num 3)],
+   [("context", .val 2), ("action", .val 3), ("reward", .num 4), ("probability", .num (1 / 4))]]
+
+/-- a log whose first interaction carries no propensity while the second does: the evaluation goes through and `learn`
+receives `None` as the second interaction's probability although that interaction logs 1/4 — `wfEnv` fails, and
+the conclusion of `off_policy_logged` fails with it (replayed on the real code: finding C06-F8) -/
+theorem off_policy_logged_needs_homogeneity_counterexample :
+    wfEnv hetEnv = false ∧ (hetEnv.map view).map (·.offPr) = [none, some (1 / 4)] ∧
+    evaluate hetCfg cexL none hetEnv 0 =
+      .ok (20, [.learn (some 1) (some 2) (some 3) none [], .learn (some 2) (some 3) (some 4) none []], []) := by
+  set_option synthInstance.maxSize 4000 in
+  decide +kernel
+
 
 end Coba.C06
